@@ -37,6 +37,11 @@ func genPriorities(rng *rand.Rand) []uint {
 		sort.Slice(out, func(i, j int) bool { return out[i] > out[j] })
 		return out
 	}
+	if rng.IntN(30) == 0 {
+		// priority 0 is a legal map key: an order-based divider serves it like any other
+		out = []uint{uint(2 + rng.IntN(5)), 1, 0}[rng.IntN(2):]
+		return out
+	}
 	switch k := rng.IntN(10); {
 	case k < 7:
 		pool := prioValuePools[rng.IntN(6)]
@@ -117,7 +122,7 @@ func genPrioScenario(rng *rand.Rand, g prioGen) PrioScenario {
 		if try > 30 {
 			prios = []uint{3, 2, 1}
 		}
-		if prios[0] > 1<<40 && sc.Divider != "fair" && sc.Divider != "revfair" {
+		if (prios[0] > 1<<40 || prios[len(prios)-1] == 0) && sc.Divider != "fair" && sc.Divider != "revfair" {
 			// Rate / weight based dividers sum or scale the values: beyond 2^40 only the
 			// order-based dividers are meaningful
 			sc.Divider = []string{"fair", "revfair"}[rng.IntN(2)]
@@ -364,7 +369,7 @@ func genPrioScenario(rng *rand.Rand, g prioGen) PrioScenario {
 			cut := rng.IntN(len(sc.Script) + 1)
 			sc.Script = sc.Script[:cut:cut]
 		}
-		sc.Script = append(sc.Script, POp{K: kind, D: int64(rng.IntN(300))})
+		sc.Script = append(sc.Script, POp{K: kind, D: int64(rng.IntN(300)), N: rng.IntN(4)})
 	case "addrm":
 		// interleave control calls with the traffic: add a new priority, replace, remove, re-add
 		extra := []uint{11, 12, 13}
@@ -464,6 +469,22 @@ func genPrioScenario(rng *rand.Rand, g prioGen) PrioScenario {
 		}
 		if at[len(sc.Script)] {
 			emit()
+		}
+		if rng.IntN(3) == 0 {
+			// end game: everything closed and drained, graceful stop pending, only the items of
+			// removed / replaced channels are still withheld - the discipline has to keep waiting
+			var ps []uint
+			for p, ok := range present {
+				if ok {
+					ps = append(ps, p)
+				}
+			}
+			sort.Slice(ps, func(i, j int) bool { return ps[i] < ps[j] })
+			for _, p := range ps {
+				out = append(out, POp{K: "C", P: p})
+			}
+			out = append(out, POp{K: "graceful"}, POp{K: "D"}, POp{K: "R", Mode: "keep-removed"}, POp{K: "D"}, POp{K: "R", Mode: "keep-removed"}, POp{K: "D"},
+				POp{K: "H", D: int64(200 + rng.IntN(3000))})
 		}
 		sc.Script = out
 	}
